@@ -150,9 +150,9 @@ def run_case(case, rec, jax, jnp, ds):
       out.setdefault("guards", []).append(guards)
       for k in sample_indices(rng, m, 6):
         a, b = states[k], states[k + 1]
-        trans.append(dict(attempt=ai, k=k, M=mat(a[1]), H=mat(a[2]), M2=mat(b[1]), H2=mat(b[2]),
-                          err2=float(b[4]), Hold2_is_H=bool(np.array_equal(np.asarray(b[3]),
-                                                                          np.asarray(a[2])))))
+        trans.append(dict(attempt=ai, k=k, i=int(a[0]), i2=int(b[0]), M=mat(a[1]), H=mat(a[2]),
+                          err=float(a[4]), M2=mat(b[1]), H2=mat(b[2]), Hold2=mat(b[3]),
+                          err2=float(b[4]), ratio2=float(b[5])))
   out["transitions"] = trans
   out["alpha"] = float(np.float64(-1.0 / p))
   return out
